@@ -283,7 +283,11 @@ def run_proc(cmd, timeout, cwd=None, env=None):
 
 def run_cbmc(job):
     """-> dict(status=PASS|FAIL|VACUOUS|INCONCLUSIVE, failed=[(id,desc)], ...)"""
-    rc, out, wall = run_proc(job.cbmc_cmd(), job.timeout)
+    import shlex
+    # --verbosity 8 gives the statistics lines (symex steps, VCCs, solver time) but also one line per loop unwinding:
+    # those are filtered out in a pipe so that long unrollings do not balloon the captured output
+    pipeline = shlex.join(job.cbmc_cmd()) + " 2>&1 | grep -a -v -E '^(Unwinding|Not unwinding) (loop|recursion)'"
+    rc, out, wall = run_proc(["bash", "-o", "pipefail", "-c", pipeline], job.timeout)
     res = {"name": job.name, "wall_s": round(wall, 2), "backend": job.backend, "facet": job.facet,
            "shape": job.shape, "failed": [], "nprops": 0, "steps": 0, "vccs": 0, "solver_s": 0.0}
     if rc == "timeout":
